@@ -98,10 +98,12 @@ def case : P String := do
   let fu : FeatureUnits := { time := ftu, distance := fdu, liquid := flu, electric := feu }
   let edges ← listOf (do let id ← nat; let d ← float; pure ({ id := id, distance := d } : Edge Float))
   let bcd ← float
+  let hm ← float
   endOfLine
-  match v0.updateFromQuery q with
-  | .error _ => pure "rejected"
-  | .ok v =>
+  match getMaxSpeed tbl, v0.updateFromQuery q with
+  | .error _, _ => pure "engine_rejected"
+  | .ok _, .error _ => pure "rejected"
+  | .ok maxSpeed, .ok v =>
     let s0 := v.initialState
     let rec go (es : List (Edge Float)) (st : VState Float × Caches Key Float) (acc : List String) :
         List String × VState Float :=
@@ -114,9 +116,12 @@ def case : P String := do
     let (steps, last) := go edges (s0, caches) []
     let (bce, bcu) := v.bestCaseEnergy bcd svc.distanceUnit
     let bcs := v.bestCaseEnergyState fu bcd svc.distanceUnit last
+    let est := match estimateTraversal svc eng maxSpeed v fu hm last with
+      | .error x => "est err " ++ errClass x
+      | .ok s => "est ok " ++ showState kind s
     pure (" | ".intercalate
       (["init " ++ showState kind s0] ++ steps ++
-       ["bc " ++ floatOut bce ++ " " ++ bcu.name, "bcs " ++ showState kind bcs]))
+       ["bc " ++ floatOut bce ++ " " ++ bcu.name, "bcs " ++ showState kind bcs, est]))
 
 def run (line : String) : String := Proto.run case line
 
